@@ -1,0 +1,112 @@
+//go:build verif
+
+// Contracts for package fun, read by /verif/govc (comments only).
+package fun
+
+// ---------------------------------------------------------------------------
+// WaitGroup (C14, C13)
+// ---------------------------------------------------------------------------
+
+//@ ghost WaitGroup.wW int
+//@ ghost WaitGroup.wS int
+// credit: increments performed by the current goroutine that have not yet
+// been handed to a goroutine that will call Done (thread-local ghost).
+//@ ghost WaitGroup.credit int
+//@ cond WaitGroup.cond lock mu
+//@ guarded WaitGroup.{counter,cond} by mu
+//@ waitkind WaitGroup.cond wait wW wS = wg.counter == 0
+
+// Lock invariant: the counter is never negative; no waiter is parked
+// un-notified while the counter is zero; parked waiters imply the condition
+// variable exists.
+//@ pred wginv(wg *WaitGroup) = wg.counter >= 0 && wg.wW >= 0 && wg.wS >= 0 && (wg.wW > 0 ==> wg.cond != nil)
+//@ pred wgwake(wg *WaitGroup) = wg.wW > 0 && wg.counter == 0 ==> wg.wS > 0
+//@ lockinv WaitGroup.mu(wg) = wginv(wg)
+//@ lockinv[C14] WaitGroup.mu(wg) = wgwake(wg)
+//@ lockhavoc WaitGroup.mu(wg) = wg.counter, wg.cond, wg.wW, wg.wS
+//@ stutter WaitGroup.mu(wg) = wg.counter == old(wg.counter)
+// the condition variable is created once and never replaced
+//@ lockrely WaitGroup.mu(wg) = old(wg.cond) != nil ==> wg.cond == old(wg.cond)
+
+//@ func (*WaitGroup).Add
+//@   props C14 C13
+//@   option old section
+//@   option acquires wg.mu
+//@   requires wg != nil && !held(wg.mu)
+//@   panics when old(wg.counter) + num < 0
+//@   ensures-panic wg.counter == old(wg.counter)
+//@   ensures wg.counter == old(wg.counter) + num
+//@   ghostset wg.credit = wg.credit + num
+//@   ensures wg.credit == old(wg.credit) + num
+//@   modifies wg.counter, wg.cond, wg.wW, wg.wS, wg.credit
+
+//@ func (*WaitGroup).Done
+//@   props C14 C13
+//@   option old section
+//@   option acquires wg.mu
+//@   requires wg != nil && !held(wg.mu)
+//@   panics when old(wg.counter) - 1 < 0
+//@   ensures wg.counter == old(wg.counter) - 1 && wg.credit == old(wg.credit) - 1
+//@   modifies wg.counter, wg.cond, wg.wW, wg.wS, wg.credit
+
+//@ func (*WaitGroup).Inc
+//@   props C14 C13
+//@   option old section
+//@   option acquires wg.mu
+//@   requires wg != nil && !held(wg.mu)
+//@   ensures wg.counter == old(wg.counter) + 1 && wg.credit == old(wg.credit) + 1
+//@   modifies wg.counter, wg.cond, wg.wW, wg.wS, wg.credit
+
+//@ func (*WaitGroup).Num
+//@   props C14 C13
+//@   option old section
+//@   option acquires wg.mu
+//@   requires wg != nil && !held(wg.mu)
+//@   ensures result == wg.counter && wg.counter == old(wg.counter)
+
+//@ func (*WaitGroup).IsDone
+//@   props C14 C13
+//@   option old section
+//@   option acquires wg.mu
+//@   requires wg != nil && !held(wg.mu)
+//@   ensures result == (wg.counter == 0) && wg.counter == old(wg.counter)
+
+// Wait returns only from a section in which it observed the counter at zero,
+// or when its context is done.
+//@ func (*WaitGroup).Wait
+//@   props C14 C13
+//@   option old section
+//@   option waitkind wait
+//@   requires wg != nil && !held(wg.mu) && ctx != nil
+//@   ensures wg.counter == 0 || done(ctx)
+//@   ensures wg.counter == old(wg.counter)
+//@   modifies wg.cond, wg.wW, wg.wS
+//@   loop 1 invariant held(wg.mu) && wginv(wg) && wg.counter != 0 && wg.counter == old(wg.counter) && wg.cond != nil && (old(wg.cond) != nil ==> wg.cond == old(wg.cond))
+
+// PostHook: the hook runs exactly once on every exit of the wrapped operation,
+// normal or panicking (it is deferred).
+//@ func (Operation).PostHook$1
+//@   props C14 C15
+//@   option callbacks-may-panic
+//@   requires wf != nil && hook != nil
+//@   ensures calls(hook) == old(calls(hook)) + (wf == hook ? 2 : 1)
+//@   ensures-panic calls(hook) == old(calls(hook)) + (wf == hook ? 2 : 1)
+//@   panics when true
+
+// Launch: the group is incremented strictly before the goroutine starts, and
+// the goroutine started is op wrapped in PostHook(wg.Done): Done runs when op
+// returns or panics. So the group accounts for exactly the goroutine started.
+//@ func (*WaitGroup).Launch
+//@   props C14
+//@   option spawn-requires wg.credit > old(wg.credit)
+//@   option spawn-ghost wg.credit = wg.credit - 1
+//@   option spawn-body (Operation).PostHook$1
+//@   requires wg != nil && !held(wg.mu)
+//@   ensures wg.credit == old(wg.credit)
+//@   modifies wg.counter, wg.cond, wg.wW, wg.wS, wg.credit
+
+//@ func (Operation).Add
+//@   props C14
+//@   requires wg != nil && !held(wg.mu)
+//@   ensures wg.credit == old(wg.credit)
+//@   modifies wg.counter, wg.cond, wg.wW, wg.wS, wg.credit
